@@ -289,3 +289,45 @@ def distinct_alphas(rng: random.Random, n: int) -> list[float]:
 
 def positive_y(rng: random.Random, n: int, lo=0.5, hi=2.0) -> list[float]:
     return [lo + (hi - lo) * rng.random() for _ in range(n)]
+
+
+# ------------------------------------------------------------------------------ upper-case spelling with a replacement table
+
+UPPER_ELEMENTS = ["E", "H", "D", "HE", "C", "N", "O", "MG", "SI", "S", "CL", "FE", "NA"]
+UPPER_PSEUDO = ["CR", "CRP", "PHOTON", "CRPHOT", "XRAY"]
+UPPER_REPLACEMENT = {"E": "e", "HE": "He", "MG": "Mg", "SI": "Si", "CL": "Cl", "FE": "Fe", "NA": "Na"}
+
+
+def upper_variant(net: dict, prefix="#") -> dict | None:
+    """The same abstract network spelled the UCLCHEM way: element symbols in upper case, mapped back to the usual symbols by a
+    replacement table (HE->He ...).  `name` becomes the upper-case spelling used in reactions and files; composition, charge and
+    alias (built from the mapped symbols) stay those of the original species.  None when a name would be read differently by a
+    longest-match tokenizer over the upper-case list, or carries a label the list does not know."""
+    inv = {v: k for k, v in UPPER_REPLACEMENT.items()}
+    ren, species = {}, []
+    for sp in net["species"]:
+        if sp["electron"]:
+            new = dict(sp, name="E-", alias="eM")
+        else:
+            if sp["label"]:
+                return None
+            parts = _parts_of(sp)
+            if parts is None:
+                return None
+            up = [(inv.get(e, e).upper(), n) for e, n in parts]
+            core = render_core(up)
+            if tokenize(core, UPPER_ELEMENTS + UPPER_PSEUDO) != up:
+                return None
+            q = sp["charge"]
+            new = dict(sp, name=(prefix if sp["surface"] else "") + core + ("+" * q if q > 0 else "-" * (-q)))
+        ren[sp["name"]] = new["name"]
+        species.append(new)
+    if len(set(ren.values())) != len(ren):
+        return None
+    pmap = {"Photon": "PHOTON"}
+    reactions = [dict(r, reactants=[ren[x] for x in r["reactants"]], products=[ren[x] for x in r["products"]],
+                      pseudo=(pmap.get(r["pseudo"], r["pseudo"]) if r.get("pseudo") else None)) for r in net["reactions"]]
+    out = dict(net, species=species, reactions=reactions)
+    if net.get("required"):
+        out["required"] = [ren[x] for x in net["required"]]
+    return out
